@@ -25,14 +25,17 @@ CLAIMED["C12"] = dict(
     technique="static analysis: definite-assignment (typestate) of owned/optional pointer members over every "
               "constructor CFG of every class, new[]/delete[] form agreement, path-sensitive nullness analysis (belief "
               "contradiction) of the optional components of both task-based drivers with correlated-flag tracking, "
-              "counting argument on the CFG for the fixed task arrays, unconditional-reset rule for the pools",
+              "counting argument on the CFG for the fixed task arrays, unconditional-reset rule for the pools; zone (difference-bound) "
+              "abstract interpretation with widening and boolean-flag partitioning for the index arithmetic of the task queue",
     text="Decides the ownership and null discipline whose breach is the reported crash, for every class of the library: "
          "each pointer member that a destructor deletes or that the class compares with nullptr is definitely assigned by "
          "every user-provided non-delegating constructor (restart constructors included), allocation/deallocation forms agree; "
          "every optional component of the two task-based drivers (a pointer the driver itself compares with nullptr) is "
          "dereferenced only on paths on which it cannot be null; the 27-entry task arrays handed to every TaskContext::execute "
-         "receive at most 27 entries per task; pool resets clear every released element. One known finding (RHD driver with "
-         "`PhotonSourceDistribution: type: None`). Does not decide run-time sized index bounds or exit status as such.",
+         "receive at most 27 entries per task; pool resets clear every released element; every subscript and block move on the task "
+         "queue's heap array stays inside the allocation under the class invariant size <= capacity (adding methods under the "
+         "stated assumption that callers leave room). One known finding (RHD driver with `PhotonSourceDistribution: type: None`). "
+         "Does not decide the index bounds of other arrays or exit status as such.",
     note="Trusted: clang front end and AST export. A member handed out by address/reference is assumed initialised by the callee; "
          "factory functions are taken as non-null only when every reachable return statement returns `new`.")
 
@@ -159,14 +162,15 @@ CLAIMED["C04"] = dict(
 CLAIMED["C01"] = dict(
     level="other", design="3/C01",
     technique="static analysis: typestate / must-pass-through / control-dependence rules on the CFG of every photon task body, of the source "
-              "task creation code and of both worker loops",
+              "task creation code and of both worker loops; path-wise symbolic evaluation of the packet budget split",
     text="Decides the per-task resource and accounting discipline that is necessary for `exactly once, nothing left behind` under every "
          "schedule: every task slot and photon buffer taken is published / attached / freed exactly once on every path, the input buffer of a "
          "traversal is freed and that of a re-emission is re-attached or freed, the done-counter advances exactly once by input size minus the "
          "sizes of the buffers kept for later work, the worker loops release locks, free the slot and publish every returned task, the run flag "
          "is cleared only under (no buffer in flight and done == requested), source batches equal what is counted as launched, external-source "
          "tasks announce their packets only after storing them, the flush is scheduled once and holds its block's lock, and photon batches "
-         "are handed out under the source's lock. Quiescence detection under a racy schedule and the per-source split arithmetic are not decided.",
+         "are handed out under the source's lock, and the packet budgets of the source types add up to the requested number on every "
+         "set-up path. Quiescence detection under a racy schedule and the per-source split inside DistributedPhotonSource are not decided.",
     note="Trusted: clang, AST export; C08 container guarantees; the run flag is a plain bool eventually seen by all workers.")
 
 CLAIMED["C20"] = dict(
@@ -256,7 +260,8 @@ CLAIMED["C16"] = dict(
               "evaluation of the Cartesian grid's loop-free wall-intersection, periodic-wrap and neighbour functions over finite "
               "classes of index (below / inside / above, with non-uniform comparisons reported) and the 13 weak orderings of the three "
               "wall distances; mixed-radix floor certificate for the linear-index bijection; affine-inverse identity between "
-              "get_cell_indices and get_cell with the constructor's definitions substituted",
+              "get_cell_indices and get_cell with the constructor's definitions substituted; finite evaluation of the octant encode / "
+              "decode expressions and of the 8 x 6 child-neighbour table of the AMR tree; purity (effect) analysis of the look-up path",
     text="Decides, for every input at once, the clauses of C16 that are in the shape of the code. (1) Cartesian, AMR and Voronoi "
          "interact() account a step identically: the optical depth of a step is linear in the path; the target is reduced by exactly "
          "that; on overshoot the path is shortened so that the optical depth used equals the target exactly, the packet stops there and "
@@ -266,8 +271,13 @@ CLAIMED["C16"] = dict(
          "step with ties, wall point; periodic wrap of index and position for all 216 class/flag combinations; get_long_index / "
          "get_indices are inverse bijections onto [0, number of cells); a cell's box is exactly the set of positions mapped to its "
          "index; cell volume x number of cells = box volume; the neighbour table is c-1 / c+1 with wrap or none, normals -1 / +1 "
-         "(hence mutual). NOT decided: AMR refinement histories and key enumeration, AMR and Voronoi wall finding, Voronoi geometry, "
-         "the Octree / PointLocations searches, and anything numeric (round-off, positions exactly on walls).",
+         "(hence mutual). (3) AMR tree: every site that descends into, creates or enumerates children uses child = 4 ix + 2 iy + iz with "
+         "the bit of an axis = upper half, and child box (anchor + i side/2, side/2), so the eight children tile the parent and the "
+         "descent picks the child containing the position (induction over any refinement history); one key radix (3 bits per level) "
+         "everywhere; set_ngbs gives each child the sibling or the mirrored child of the parent's neighbour in all 48 entries; the "
+         "look-up path of every grid keeps no state between calls. NOT decided: which cells a refinement splits, key enumeration order, "
+         "AMR and Voronoi wall finding, Voronoi geometry, the Octree / PointLocations searches, and anything numeric (round-off, "
+         "positions exactly on walls).",
     note="Trusted: clang, AST export, sympy; the wall point of the AMR / Voronoi helpers is assumed to be position + s x direction "
          "(decided for the Cartesian helper only).")
 
